@@ -71,7 +71,7 @@ pub enum Act {
     Drop { slot: u8 },
     /// 0 = tracked(), 1 = untracked(), 2 = start_tracking(), 3 = stop_tracking()
     Flag { slot: u8, kind: u8 },
-    /// seed: 0 = None, 1 = generic, 2 = zeros, 3 = a clone of a live plain untracked handle of the
+    /// seed: 0 = None, 1 = generic, 2 = zeros, 4 = ones scaled by 1e-6, 3 = a clone of a live plain untracked handle of the
     /// root's shape (the highest such slot other than the root): the caller keeps the seed
     Backward { slot: u8, seed: u8 },
     /// via: 0 = replace_gradient(), 1 = *gradient_mut() = None
@@ -102,7 +102,7 @@ pub fn fmt_act(cfg: &MCfg, a: &Act) -> String {
             2 => format!("h{}.start_tracking()", slot),
             _ => format!("h{}.stop_tracking()", slot),
         },
-        Act::Backward { slot, seed } => format!("h{}.backward({})", slot, ["None", "generic", "zeros", "Some(plain handle.clone())"][*seed as usize]),
+        Act::Backward { slot, seed } => format!("h{}.backward({})", slot, ["None", "generic", "zeros", "Some(plain handle.clone())", "1e-6*ones"][*seed as usize]),
         Act::Clear { slot, via } => {
             if *via == 0 {
                 format!("h{}.replace_gradient()", slot)
@@ -359,6 +359,7 @@ impl RWorld {
             0 => vec![1.0; n],
             1 => crate::prog::seed_vals(n, 1),
             2 => vec![0.0; n],
+            4 => vec![1.0e-6; n],
             _ => match self.seed_handle(slot) {
                 Some(s) => self.nodes[self.slots[s].as_ref().unwrap().node].t.values(),
                 None => return Err(RErr::Unspecified),
@@ -491,6 +492,7 @@ impl RWorld {
                     0 => vec![1.0; n],
                     1 => crate::prog::seed_vals(n, 1),
                     2 => vec![0.0; n],
+                    4 => vec![1.0e-6; n],
                     _ => match seed_slot {
                         Some(s) => self.nodes[self.slots[s].as_ref().unwrap().node].t.values(),
                         None => return Err(RErr::Unspecified),
@@ -790,6 +792,7 @@ impl IWorld {
                     0 => None,
                     1 => Some(arr(h.dimensions(), &crate::prog::seed_vals(n, 1))),
                     2 => Some(arr(h.dimensions(), &vec![0.0; n])),
+                    4 => Some(arr(h.dimensions(), &vec![1.0e-6; n])),
                     _ => Some(self.slots[seed_slot.expect("seed handle")].as_ref().unwrap().clone()),
                 };
                 h.backward(s);
